@@ -63,12 +63,20 @@ PadArgs(i) ==
   {[kind |-> "scalar", w |-> [j \in Axes(i) |-> <<1, 1>>], out |-> <<>>]}
   \cup {[kind |-> "per-axis", w |-> [j \in Axes(i) |-> IF j = k THEN <<1, 0>> ELSE IF j = Nd(i) THEN <<0, 2>> ELSE <<0, 0>>], out |-> <<>>] : k \in {1}}
   \cup {[kind |-> "output_shape", w |-> <<>>, out |-> [j \in Axes(i) |-> IF j = 1 THEN Sh(i)[j] + 1 ELSE IF j = Nd(i) THEN Sh(i)[j] + 2 ELSE Sh(i)[j]]]}
+\* python's round(): half to even.  n * p / q rounded, at least 1
+RoundHalfEven(num, den) ==
+  LET fl == num \div den  r2 == 2 * (num % den) IN
+  IF r2 < den THEN fl ELSE IF r2 > den THEN fl + 1 ELSE IF fl % 2 = 0 THEN fl ELSE fl + 1
+OutLen(n, fac) == LET m == RoundHalfEven(n * fac[1], fac[2]) IN IF m < 1 THEN 1 ELSE m
+FacArgs(i, subsets, facs) ==
+  UNION {{[o |-> [j \in A |-> OutLen(Sh(i)[j], fac)], form |-> "factors-tuple", fac |-> fac] : fac \in facs} : A \in subsets}
 \* ---- rich arguments (Mode = "c06") ------------------------------------------
 AxisSubsets(i) == (SUBSET Axes(i)) \ {{}}
 RichBinArgs(i) ==
   UNION {{[f |-> fm, mean |-> m, form |-> "axes"] : fm \in [A -> 1..4], m \in BOOLEAN} : A \in AxisSubsets(i)}
 RichResArgs(i) ==
   UNION {{[o |-> om, form |-> "out_shape"] : om \in [A -> {1, 2, 3, 4, 5, 7, 8}]} : A \in {A2 \in AxisSubsets(i) : Cardinality(A2) <= 2}}
+  \cup FacArgs(i, {A2 \in AxisSubsets(i) : Cardinality(A2) <= 2}, {<<1, 2>>, <<3, 2>>, <<2, 1>>, <<1, 3>>, <<5, 4>>})
 RichPadOut(i) == {[j \in Axes(i) |-> Sh(i)[j] + d[j]] : d \in [Axes(i) -> {0, 1, 3}]}
 PadWidthsFor(i, out) == [j \in Axes(i) |-> <<(out[j] - Sh(i)[j]) \div 2, (out[j] - Sh(i)[j]) - ((out[j] - Sh(i)[j]) \div 2)>>]
 \* pad to an output shape, then crop exactly the pad widths: one composite event
@@ -104,6 +112,7 @@ DoBin == \E i \in DOMAIN objs, inplace \in BOOLEAN : \E a \in (IF Mode = "c06" T
 ResArgs(i) ==
   {[o |-> [j \in {1} |-> Sh(i)[1] + 1], form |-> "out_shape"], [o |-> [j \in {Nd(i)} |-> Sh(i)[Nd(i)] - 1], form |-> "out_shape"],
    [o |-> [j \in Axes(i) |-> 2 * Sh(i)[j]], form |-> "factors"]}
+  \cup FacArgs(i, {{1}, {Nd(i)}}, {<<3, 2>>, <<1, 2>>})
 DoResample == \E i \in DOMAIN objs, inplace \in BOOLEAN : \E a \in (IF Mode = "c06" THEN RichResArgs(i) ELSE ResArgs(i)) :
    /\ Room(inplace) /\ \A j \in DOMAIN a.o : a.o[j] >= 1 /\ a.o[j] <= 8
    /\ Put(i, inplace, Resample(objs[i], a.o, nbase + 1)) /\ nbase' = nbase + 1
@@ -118,9 +127,9 @@ OneAxis(i) == UNION {{[e |-> [j \in Axes(i) |-> IF j = k THEN c ELSE Full], ell 
 Perm3 == {<<1, 2, 3>>, <<1, 3, 2>>, <<2, 1, 3>>, <<2, 3, 1>>, <<3, 1, 2>>, <<3, 2, 1>>}
 Mixed(i) ==
   IF Nd(i) < 3 THEN {}
-  ELSE {[e |-> [j \in Axes(i) |-> IF j = p[1] THEN I(0) ELSE IF j = p[2] THEN Full
+  ELSE {[e |-> [j \in Axes(i) |-> IF j = p[1] THEN I(0) ELSE IF j = p[2] THEN mid
                                   ELSE IF j = p[3] THEN (IF Sh(i)[j] >= 2 THEN L(<<Sh(i)[j] - 1, 0>>) ELSE L(<<0>>)) ELSE S(NONE, NONE, 1)],
-         ell |-> 0, short |-> FALSE] : p \in Perm3}
+         ell |-> 0, short |-> FALSE] : p \in Perm3, mid \in {Full, S(NONE, NONE, 2), S(NONE, NONE, -1)}}
 Ell(i) ==
   IF Nd(i) < 2 THEN {}
   ELSE {[e |-> [j \in Axes(i) |-> IF j = Nd(i) THEN I(0) ELSE Full], ell |-> 1, short |-> FALSE],
